@@ -55,9 +55,10 @@ def _unit_name(tab, x):
 def _sys_name(tab, rec):
     if rec["sys"] >= 1:
         return tab["systems"][rec["sys"] - 1]["name"]
-    b = ",".join(_unit_name(tab, [[pa[0], pa[1], 12]]) if pa[1] else "-" for pa in rec["base"])
+    bc = rec.get("bcoef") or [[1, 1]] * 9
+    b = ",".join((("" if c == [1, 1] else f"{c[0]}/{c[1]}*") + _unit_name(tab, [[pa[0], pa[1], 12]])) if pa[1] else "-" for pa, c in zip(rec["base"], bc))
     d = ";".join(_unit_name(tab, dd["x"]) for dd in rec["decl"])
-    return f"user({b}|{d})"
+    return f"user({b}|{d}|{rec.get('style', '')},{rec.get('form', '')},reg={rec.get('reg', 0)})"
 
 
 def _norm_obs(o):
@@ -66,54 +67,77 @@ def _norm_obs(o):
     o.setdefault("made", {"k": "ok", "exc": "", "registered": True})
     for k in ("backexc",):
         o.pop(k, None)
-    o["gbe"] = {"k": o["gbe"]["k"], "x": o["gbe"].get("x", [])}
-    o["twice"] = {"k": o["twice"]["k"], "x": o["twice"].get("x", []), "same": bool(o["twice"].get("same", True))}
+    o["gbe"] = {"k": o["gbe"]["k"], "x": o["gbe"].get("x", []), "coefr": o["gbe"].get("coefr", [1, 1])}
+    o["twice"] = {"k": o["twice"]["k"], "x": o["twice"].get("x", []), "coefr": o["twice"].get("coefr", [1, 1]), "same": bool(o["twice"].get("same", True))}
     return o
 
 
 def _validate(ck, tab, data_path, recs, label):
-    """trace validation of single-step observations: P (clauses) and T (transition) by TLC"""
+    """trace validation of single-step observations: P (clauses) and T (transition) by TLC.
+    Returns the verdict actions (applied later, in a fixed order, by _apply)."""
     CH = 20000
+    acts = []
     for off in range(0, len(recs), CH):
         part = recs[off : off + CH]
         path = ck.write_json(f"obs_{label}_{off}.json", part)
         res = ck.tlc("Trace_C10", env={"C10DATA": data_path, "C10OBS": path}, workers=1, coverage=False, label=f"trace validation {label}", timeout=1800)
         if res.distinct != len(part) + 1:
             raise MachineryFailure(f"trace validation consumed {res.distinct} states, expected {len(part) + 1}")
-        ck.validated(len(part))
+        acts.append(("validated", len(part)))
         for r in res.by_tag("T-FAIL"):
             rec = part[r["i"] - 1]
-            ck.drift_step("Target/" + r["route"], {"system": _sys_name(tab, rec), "unit": _unit_name(tab, rec["x"]), "var": rec["var"],
-                                                   "observed": {"k": rec["o"]["k"], "unit": _unit_name(tab, rec["o"]["x"])}, "model": r["model"]})
+            acts.append(("drift", "Target/" + r["route"], {"system": _sys_name(tab, rec), "unit": _unit_name(tab, rec["x"]), "var": rec["var"],
+                                                          "observed": {"k": rec["o"]["k"], "unit": _unit_name(tab, rec["o"]["x"]), "coef_pow": [rec["o"].get("coefr"), rec["o"].get("cpow")]}, "model": r["model"]}))
         nfixed = len(res.by_tag("T-FIXED"))
         if nfixed:
-            ck.cov["em_route_follows_proposed_fix"] = ck.cov.get("em_route_follows_proposed_fix", 0) + nfixed
+            acts.append(("fixed", nfixed))
         for r in res.by_tag("P-FAIL"):
             rec = part[r["i"] - 1]
             o = rec["o"]
             key = {"clause": r["clause"], "route": r["route"], "as_transcribed": bool(r["astranscribed"])}
             detail = {"system": _sys_name(tab, rec), "unit": _unit_name(tab, rec["x"]), "var": rec["var"], "k": o["k"], "exc": o.get("exc", ""),
-                      "result": _unit_name(tab, o["x"]), "unknown": o.get("unk", []), "twice": {"k": o["twice"]["k"], "unit": _unit_name(tab, o["twice"]["x"]), "same": o["twice"]["same"]},
+                      "result": _unit_name(tab, o["x"]), "coef_pow": [o.get("coefr"), o.get("cpow")], "made": o.get("made"), "unknown": o.get("unk", []), "twice": {"k": o["twice"]["k"], "unit": _unit_name(tab, o["twice"]["x"]), "same": o["twice"]["same"]},
                       "gbe": {"k": o["gbe"]["k"], "unit": _unit_name(tab, o["gbe"]["x"])}, "back": o["back"], "si": o["si"]}
-            summ = ck.cov.setdefault("pfail_summary", {})
             sk = f"{label}/{r['clause']}/{r['route']}/{'as-transcribed' if r['astranscribed'] else 'not-transcribed'}"
+            example = f"{detail['system']}: {detail['unit']} [{detail['var']}] -> {detail['result'] if o['k'] == 'ok' else o.get('exc')}"
+            acts.append(("pfail", key, detail, {k: rec[k] for k in ("sys", "base", "bcoef", "decl", "style", "form", "reg", "x", "var")} | {"kind": "step"}, sk, example))
+    return acts
+
+
+def _apply(ck, acts):
+    for a in acts:
+        if a[0] == "validated":
+            ck.validated(a[1])
+        elif a[0] == "drift":
+            ck.drift_step(a[1], a[2])
+        elif a[0] == "fixed":
+            ck.cov["em_route_follows_proposed_fix"] = ck.cov.get("em_route_follows_proposed_fix", 0) + a[1]
+        else:
+            _, key, detail, case, sk, example = a
+            summ = ck.cov.setdefault("pfail_summary", {})
             summ[sk] = summ.get(sk, 0) + 1
             ex = ck.cov.setdefault("pfail_examples", {})
             if len(ex.setdefault(sk, [])) < 8:
-                ex[sk].append(f"{detail['system']}: {detail['unit']} [{detail['var']}] -> {detail['result'] if o['k'] == 'ok' else o.get('exc')}")
-            ck.violation(key, detail, case={"kind": "step", "sys": rec["sys"], "base": rec["base"], "decl": rec["decl"], "x": rec["x"], "var": rec["var"]})
+                ex[sk].append(example)
+            ck.violation(key, detail, case=case)
 
 
 def _replay_steps(ck, tab, data_path, cases, label):
-    obs = ck.pmap("impl_c10", "observe", [{"sys": c["sys"], "spec": {"base": c["base"], "decl": c["decl"]}, "x": c["x"], "var": c["var"]} for c in cases], common=tab)
+    for c in cases:  # replay files written before coefficients / value classes existed
+        c.setdefault("bcoef", [[1, 1]] * 9 if c["sys"] == 0 else [])
+        c.setdefault("style", "str" if c["sys"] == 0 else "")
+        c.setdefault("form", "kw" if c["sys"] == 0 else "")
+        c.setdefault("reg", 0)
+    SP = ("base", "bcoef", "decl", "style", "form", "reg")
+    obs = ck.pmap("impl_c10", "observe", [{"sys": c["sys"], "spec": {k: c[k] for k in SP}, "x": c["x"], "var": c["var"]} for c in cases], common=tab)
     recs = []
     for c, o in zip(cases, obs):
-        recs.append({"sys": c["sys"], "base": c["base"], "decl": c["decl"], "x": c["x"], "var": c["var"], "o": _norm_obs(o)})
-    _validate(ck, tab, data_path, recs, label)
-    return recs
+        recs.append({k: c[k] for k in ("sys",) + SP + ("x", "var")} | {"o": _norm_obs(o)})
+    return recs, _validate(ck, tab, data_path, recs, label)
 
 
 def _family(ck, tab, data_path, family, **kw):
+    """one family: TLC case table -> replay -> TLC trace validation; thread-safe (no shared state is written)"""
     cfg = _cfg(ck, "MC_C10_" + family, family, kw.get("prefixes", [8]), kw.get("variants", ["in_base"]), kw.get("comp_stride", 4), kw.get("ncand", 1), kw["kilo"], kw.get("decl_stride", 8))
     res = ck.tlc("MC_C10", cfg, env={"C10DATA": data_path}, workers=1, label=f"case table: {family}", required_actions=["Next"], timeout=3000)
     cases = res.by_tag("CASE")
@@ -127,13 +151,19 @@ def _family(ck, tab, data_path, family, **kw):
     for c in cases:
         for cl in c["model"]:
             model.setdefault(c["route"], set()).add(cl)
-    ck.cov.setdefault("model_level_broken_clauses_by_route", {}).update({f"{family}/{k}": sorted(v) for k, v in model.items()})
+    recs, acts = _replay_steps(ck, tab, data_path, cases, family)
+    return {"family": family, "cases": cases, "recs": recs, "acts": acts, "model": {f"{family}/{k}": sorted(v) for k, v in model.items()}}
+
+
+def _absorb(ck, tab, out, nontrivial_rule):
+    family, cases, recs = out["family"], out["cases"], out["recs"]
+    ck.cov.setdefault("model_level_broken_clauses_by_route", {}).update(out["model"])
     ck.cov.setdefault("cases", {})[family] = len(cases)
     if cases:
         mid = cases[len(cases) // 2]
         ck.sample({"family": family, "system": _sys_name(tab, mid), "unit": _unit_name(tab, mid["x"]), "var": mid["var"], "route": mid["route"]})
-    recs = _replay_steps(ck, tab, data_path, cases, family)
-    return cases, recs
+    _apply(ck, out["acts"])
+    return len(cases), sum(1 for r in recs if nontrivial_rule(r))
 
 
 def run(ck):
@@ -165,32 +195,45 @@ def run(ck):
 
             c10_hist.replay(ck, tab, data_path, case)
         else:
-            _replay_steps(ck, tab, data_path, [case], "replay")
+            _apply(ck, _replay_steps(ck, tab, data_path, [case], "replay")[1])
         return
+
+    import concurrent.futures as cf
+
+    from common import NCPU
+
+    anyobs = lambda r: r["o"]["k"] in ("ok", "raise")  # noqa: E731
+    plan = [
+        # 1. every table system x every atom x every entry point
+        ("atoms", dict(variants=ALL_VARIANTS), lambda r: r["o"]["k"] == "raise" or (r["o"]["k"] == "ok" and r["o"]["x"] != r["x"])),
+        # 2. prefixed atoms
+        ("prefixed", dict(variants=ck.q(["in_base", "convert_to_base"], ["in_base", "convert_to_base", "gbe", "default"]),
+                          prefixes=ck.q(sorted({kilo, tab["prefixes"].index("m") + 1, 1}), list(range(1, npfx + 1)))), anyobs),
+        # 3. compounds
+        ("compound", dict(variants=ck.q(["in_base"], ["in_base", "convert_to_base", "gbe"]), comp_stride=ck.q(4, 1), limit=ck.q(8000, 120000)), anyobs),
+        # 4. generated user-defined systems (value class of the base units and call form rotate)
+        ("user", dict(variants=ck.q(["in_base"], ["in_base", "convert_to_base", "gbe"]), comp_stride=ck.q(4, 2), ncand=ck.q(1, 2), decl_stride=ck.q(8, 3), limit=ck.q(8000, 120000)), anyobs),
+        # 5. user-defined systems whose base units carry numeric coefficients (quantities such as 2*kpc); entry point rotates
+        ("scaled", dict(variants=["rotate"], comp_stride=ck.q(4, 2), ncand=ck.q(1, 2), decl_stride=ck.q(8, 3), limit=ck.q(6000, 60000)), anyobs),
+        # 6. validation of base units: one slot of a consistent tuple replaced by every candidate x value class x call form
+        ("validate", dict(variants=["in_base"], ncand=ck.q(2, 4)), lambda r: True),
+    ]
+    import c10_hist
 
     total = 0
     nontrivial = 0
-    # 1. every table system x every atom x every entry point
-    cases, recs = _family(ck, tab, data_path, "atoms", variants=ALL_VARIANTS, kilo=kilo)
-    total += len(cases)
-    nontrivial += sum(1 for r in recs if r["o"]["k"] in ("ok", "raise") and (r["o"]["k"] == "raise" or r["o"]["x"] != r["x"]))
-    # 2. prefixed atoms
-    pf = ck.q(sorted({kilo, tab["prefixes"].index("m") + 1, 1}), list(range(1, npfx + 1)))
-    cases, recs = _family(ck, tab, data_path, "prefixed", variants=ck.q(["in_base", "convert_to_base"], ["in_base", "convert_to_base", "gbe", "default"]), prefixes=pf, kilo=kilo)
-    total += len(cases)
-    nontrivial += sum(1 for r in recs if r["o"]["k"] in ("ok", "raise"))
-    # 3. compounds
-    cases, recs = _family(ck, tab, data_path, "compound", variants=ck.q(["in_base"], ["in_base", "convert_to_base", "gbe"]), comp_stride=ck.q(4, 1), kilo=kilo, limit=ck.q(8000, 120000))
-    total += len(cases)
-    nontrivial += sum(1 for r in recs if r["o"]["k"] in ("ok", "raise"))
-    # 4. generated user-defined systems
-    cases, recs = _family(ck, tab, data_path, "user", variants=ck.q(["in_base"], ["in_base", "convert_to_base", "gbe"]), comp_stride=ck.q(4, 2), ncand=ck.q(1, 2), decl_stride=ck.q(8, 3), kilo=kilo, limit=ck.q(8000, 120000))
-    total += len(cases)
-    nontrivial += sum(1 for r in recs if r["o"]["k"] in ("ok", "raise"))
-    # 5. histories on a user-defined system
-    import c10_hist
-
-    nh, nth = c10_hist.run(ck, tab, data_path)
+    with cf.ThreadPoolExecutor(max_workers=max(2, min(len(plan) + 1, NCPU // 2))) as pool:
+        futs = [pool.submit(_family, ck, tab, data_path, fam, kilo=kilo, **kw) for fam, kw, _ in plan]
+        # 7. histories on a user-defined system (the only thread that records verdicts while the others run)
+        fh = pool.submit(c10_hist.run, ck, tab, data_path)
+        outs = [f.result() for f in futs]
+        nh, nth = fh.result()
+    for out, (fam, kw, rule) in zip(outs, plan):
+        n, nt = _absorb(ck, tab, out, rule)
+        total += n
+        nontrivial += nt
+        if fam == "validate":
+            ck.cov["validate_rejected"] = sum(1 for r in out["recs"] if r["o"]["k"] == "nosystem")
     total += nh
     nontrivial += nth
     ck.cov["exhaustive"] = True
